@@ -226,7 +226,7 @@ pub struct FileCase {
     pub pick: u8,
 }
 
-const PSEUDO_FILES: [&str; 10] = [
+const PSEUDO_FILES: [&str; 18] = [
     "/proc/self/status",
     "/proc/cpuinfo",
     "/proc/meminfo",
@@ -237,6 +237,15 @@ const PSEUDO_FILES: [&str; 10] = [
     "/sys/devices/system/cpu/online",
     "/proc/uptime",
     "/proc/self/stat",
+    // sysfs attributes that announce a page and deliver nothing at all, or a few bytes
+    "/sys/power/state",
+    "/sys/kernel/slab/kmalloc-8/ctor",
+    "/sys/kernel/slab/kmalloc-64/ctor",
+    "/sys/kernel/slab/dentry/ctor",
+    "/sys/module/kernel/parameters/panic",
+    "/sys/class/net/lo/mtu",
+    "/sys/block/vda/size",
+    "/sys/kernel/uevent_helper",
 ];
 
 pub fn eval_file(case: &FileCase, st: &mut Stats) -> Result<(), String> {
@@ -360,6 +369,9 @@ pub fn eval_file(case: &FileCase, st: &mut Stats) -> Result<(), String> {
                     }
                 }
                 st.class("file:pseudo_lying_size");
+                if content.is_empty() {
+                    st.class("file:pseudo_announces_bytes_delivers_none");
+                }
                 st.nontrivial(oracle::fingerprint(path.as_bytes()));
             } else {
                 st.class("file:pseudo_consistent");
